@@ -410,6 +410,11 @@ func checkSearch(r *kit.Run, c Case) {
 		} else {
 			how += "-answer-too-late"
 		}
+		// the recorded findBound give-up defect gets its own key, and only when
+		// the answer is exactly the one that defect produces for this input
+		if g, ok := d.knownGiveUp(t); ok && uint64(g) == res.State.SeqNum {
+			how = "findBound-gives-up-and-returns-its-upper-bound"
+		}
 		viol(r, "wrong-state/"+sit+"/"+how,
 			fmt.Sprintf("%s: got state %d, want %d; requests: %s", desc, res.State.SeqNum, want, trace(res.Reqs, d, 40)), ac)
 		return
